@@ -259,18 +259,29 @@ pub fn cases(tier: &str, seed: u64) -> Vec<Case> {
     // position in the message (a buffer sized from the message prefix, a rescan from the start) makes
     // heap or time quadratic although every single record is cheap
     for kind in 0..crate::gen::N_KINDS {
-        let r = g.rr_of(kind);
-        if matches!(r.rdata, rdata::RData::OPT(_)) { continue; }
-        let mut one = Packet::new_reply(0);
-        one.answers.push(r.clone());
-        let per = match one.build_bytes_vec() { Ok(b) => b.len() - 12, Err(_) => continue };
-        if per > 120 { continue; }
+        // a small record of this kind (a few draws), so that many of them fit
+        let mut found = None;
+        for _ in 0..12 {
+            let r = g.rr_of(kind);
+            if matches!(r.rdata, rdata::RData::OPT(_)) { break; }
+            let mut one = Packet::new_reply(0);
+            one.answers.push(r.clone());
+            if let Ok(b) = one.build_bytes_vec() { if b.len() - 12 <= 48 { found = Some((r, b.len() - 12)); break; } }
+        }
+        let (r, per) = match found { Some(x) => x, None => continue };
         let target = if thorough { 64000 } else { 22000 };
         let mut p = Packet::new_reply(kind as u16);
         p.answers = vec![r; (target / per.max(1)).min(65535)];
         if let Ok(b) = p.build_bytes_vec() {
             if b.len() <= 65535 {
                 let mut c = parse_case(&b, "many-records");
+                // a valid uncompressed message needs far less than the worst case the general budget allows for
+                // (pointers that expand to 127 labels): 96 bytes of heap per input byte are ample (measured: 16-20)
+                {
+                    let bb = b.clone();
+                    let (_, heap_parse) = metered(|| { let _ = std::panic::catch_unwind(move || { let _ = Packet::parse(&bb); }); });
+                    if heap_parse > 96 * b.len() + 16 * 1024 { c = c.fail("parse-heap", format!("{} bytes of heap for {} bytes of input holding {} small records (budget 96 per byte)", heap_parse, b.len(), p.answers.len())); }
+                }
                 // the list-based model is slow on tens of kilobytes: compare every fourth kind with it, all with the budgets
                 if kind % 4 != 0 { c.proj = Proj::None; c.op = String::new(); }
                 v.push(c);
